@@ -18,7 +18,8 @@ ACCOUNTS = ['a', 'b' * 63, 'c' * 64, 'd' * 65, 'acct:123', ('e' * 62) + ':9', ('
 
 
 def plan(tier):
-    return pcommon.plan_solo(tier)
+    # incl. a service table that changes under a waiting client: what a departed service said must not be credited to its successor
+    return [pcommon.reload_search(tier, 'slot')] + pcommon.plan_solo(tier)
 
 
 def variants():
